@@ -291,7 +291,7 @@ CHECKS = {
             dict(name="controlled", test="TestC15Controlled", checks=(600, 120000), shards=(4, 14)),
             dict(name="controlled-noclose", test="TestC15ControlledNoClose", checks=(200, 40000), shards=(4, 14)),
             dict(name="free", test="TestC15Free", checks=(120, 20000), shards=(4, 14)),
-            dict(name="pingpong", test="TestC15PingPong", kind="enum", shards=(2, 8)),
+            dict(name="pingpong", test="TestC15PingPong", kind="enum", shards=(4, 12)),
             dict(name="close-windows", test="TestC15CloseWindows", kind="enum", shards=(8, 14)),
         ]),
 
